@@ -824,6 +824,8 @@ func (t *timeline) run() {
 		}
 		t.noteProbes(s, exp, recOps)
 		// ---- resolve admissible states of images taken inside this statement ----
+		var walAdm []*Model
+		var walNames []string
 		for _, im := range w.Captured {
 			if im.Admissible != nil || !im.InStmt || im.StmtIdx != i || t.unmodelled {
 				continue
@@ -834,16 +836,23 @@ func (t *timeline) run() {
 			}
 			switch im.Info["site"] {
 			case "wal":
-				im.Admissible = []*Model{before}
-				im.AdmNames = []string{"before"}
-				if exp.OK || exp.FailAt > 0 {
-					for k := 1; k <= exp.NOps; k++ {
-						c := before.Clone()
-						exp.ApplyPrefix(c, k)
-						im.Admissible = append(im.Admissible, c)
-						im.AdmNames = append(im.AdmNames, fmt.Sprintf("prefix-%d", k))
+				// the prefix states are the same for every image of this
+				// statement: built once, shared (they are cloned before use)
+				if walAdm == nil {
+					walAdm = []*Model{before}
+					walNames = []string{"before"}
+					if exp.OK || exp.FailAt > 0 {
+						for k := 1; k <= exp.NOps; k++ {
+							c := before.Clone()
+							exp.ApplyPrefix(c, k)
+							walAdm = append(walAdm, c)
+							walNames = append(walNames, fmt.Sprintf("prefix-%d", k))
+							bumpProgress()
+						}
 					}
 				}
+				im.Admissible = walAdm
+				im.AdmNames = walNames
 				annotateWalImage(im, recOps)
 			default: // flush
 				if s.Kind == KCreate && before != nil {
